@@ -1,7 +1,6 @@
 """c05_util — helpers of checks/c05.py: BER variants of a DER encoding derived along
 the model type (indefinite lengths per tag chain, non-minimal long-form lengths,
-segmented OCTET STRINGs), chunk schedules, the hand-written modules and a small
-OER walker that locates extension bitmaps (predicate of a known finding)."""
+segmented OCTET STRINGs), chunk schedules and the hand-written modules."""
 from modgen import first_tags, resolve, module_text
 
 # ------------------------------------------------------------------ TLV walk along the type
@@ -120,6 +119,7 @@ class Variant:
         self.rng, self.indef, self.longp, self.segp = rng, indef, longp, segp   # probabilities in 1/8
         self.chains = []     # (start offset, [end offset of each TL of the chain], indefinite?, keeps-context?)
         self.segmented = False
+        self.segmented_tagged = False   # some segmented string is not a bare UNIVERSAL 4 TLV
         self.nindef = 0
 
     def pick(self, p8):
@@ -131,15 +131,17 @@ class Variant:
         while chain[-1].link and len(chain[-1].kids) == 1:
             chain.append(chain[-1].kids[0])
         last = chain[-1]
-        # segmented (constructed) form only for an OCTET STRING that carries just its universal tag: under an
-        # IMPLICIT or EXPLICIT tag OCTET_STRING_decode_ber expects the segments to repeat the outer tag and
-        # rejects the X.690 8.7.3 form one-shot (a C03 matter, reported there)
-        seg = (last.kind in ("o", "?") and not last.cons and last.tag == b"\x04" and len(chain) == 1
+        # segmented (constructed) form of an OCTET STRING, whatever its tags (IMPLICIT: the string's own TLV carries
+        # another tag; EXPLICIT: it ends a chain of tags); the segments are UNIVERSAL 4 (X.690 8.7.3.2).
+        # Type-blind trees: only a UNIVERSAL 4 TLV is known to be an OCTET STRING
+        seg = ((last.kind == "o" or (last.kind == "?" and last.tag == b"\x04")) and not last.cons
                and len(last.content) >= 2 and self.pick(self.segp))
         can_indef = last.cons or seg
         ind = can_indef and self.pick(self.indef)
         if seg:
             self.segmented = True
+            if last.tag != b"\x04" or len(chain) > 1:
+                self.segmented_tagged = True
         # body of the last element
         if last.cons:
             # children are rendered relative to an unknown base: render twice would disturb the PRNG, so
@@ -216,18 +218,10 @@ def ber_variants_blind(der, rng):
 
 def restart_positions(v):
     """split points s at which ber_check_tags of a context-keeping decoder returns RC_WMORE after having
-    consumed at least one TL of a multi-tag chain: end(TL_1) <= s < end(TL_last)"""
+    consumed at least one TL of a multi-tag chain: end(TL_1) <= s < end(TL_last) (coverage counter)"""
     pos = set()
     for (st, ends, ind, kc) in v.chains:
         if len(ends) >= 2 and kc:
-            pos.update(range(ends[0], ends[-1]))
-    return pos
-
-
-def indef_restart_positions(v):
-    pos = set()
-    for (st, ends, ind, kc) in v.chains:
-        if len(ends) >= 2 and kc and ind:
             pos.update(range(ends[0], ends[-1]))
     return pos
 
@@ -326,75 +320,3 @@ def wide_module(name="MX5"):
     text += "END\n"
     return {"name": name, "default": "AUTOMATIC", "defs": [(n, None) for n, _ in WIDE_DEFS], "trees": {}, "text": text,
             "wide": dict(WIDE_DEFS)}
-
-
-def oer_len(b, p):
-    """X.696 8.6 length determinant -> (value, octets)"""
-    o = b[p]
-    if o < 0x80:
-        return o, 1
-    k = o & 0x7f
-    return int.from_bytes(b[p + 1:p + 1 + k], "big"), 1 + k
-
-
-def oer_walk(env, t, b, p, maps):
-    """walk the OER encoding of a WIDE_DEFS type from offset p; appends (offset of the extension bitmap's
-    length determinant, octets of the determinant, bitmap length) to maps; returns the next offset"""
-    k = t[0]
-    if k == "ref":
-        return oer_walk(env, env[t[1]], b, p, maps)
-    if k == "u8":
-        return p + 1
-    if k == "bool":
-        return p + 1
-    if k in ("int", "oct", "str"):
-        ln, ll = oer_len(b, p)
-        return p + ll + ln
-    if k == "enum":
-        return p + 1 if b[p] < 0x80 else p + 1 + (b[p] & 0x7f)
-    if k == "seqof":
-        ln, ll = oer_len(b, p)
-        cnt = int.from_bytes(b[p + ll:p + ll + ln], "big")
-        p += ll + ln
-        for _ in range(cnt):
-            p = oer_walk(env, t[1], b, p, maps)
-        return p
-    if k == "choice":
-        # AUTOMATIC TAGS: context tags 0.. ; one octet 0x80|n
-        idx = b[p] & 0x3f
-        return oer_walk(env, t[1][idx][1], b, p + 1, maps)
-    if k == "seq":
-        root, ext = t[1], t[2]
-        nopt = sum(1 for _, _, o in root if o)
-        bits = nopt + (1 if ext is not None else 0)
-        nby = (bits + 7) // 8
-        pre = int.from_bytes(b[p:p + nby], "big")
-        def bit(i):
-            return (pre >> (nby * 8 - 1 - i)) & 1
-        has_ext = ext is not None and bit(0)
-        bi = 1 if ext is not None else 0
-        p += nby
-        for _, mt, o in root:
-            if o:
-                present = bit(bi)
-                bi += 1
-                if not present:
-                    continue
-            p = oer_walk(env, mt, b, p, maps)
-        if has_ext:
-            ln, ll = oer_len(b, p)
-            maps.append((p, ll, ln))
-            unused = b[p + ll]
-            mbits = (ln - 1) * 8 - unused
-            mp = b[p + ll + 1:p + ll + ln]
-            p += ll + ln
-            for i in range(mbits):
-                if (mp[i // 8] >> (7 - i % 8)) & 1:
-                    oln, oll = oer_len(b, p)
-                    if i < len(ext):
-                        inner = []
-                        q = oer_walk(env, ext[i][1], b, p + oll, inner)
-                        maps.extend(inner)
-                    p += oll + oln
-        return p
-    raise ValueError(k)
